@@ -78,10 +78,13 @@ pub fn main(args: &Args) -> i32 {
         eprintln!("child: cannot open out file");
         return 3;
     }
+    let no_rlimit = args.extra.contains_key("no-rlimit");
     // SAFETY: setrlimit with a valid struct.
     unsafe {
-        let lim = libc::rlimit { rlim_cur: RLIMIT_AS, rlim_max: RLIMIT_AS };
-        libc::setrlimit(libc::RLIMIT_AS, &lim);
+        if !no_rlimit {
+            let lim = libc::rlimit { rlim_cur: RLIMIT_AS, rlim_max: RLIMIT_AS };
+            libc::setrlimit(libc::RLIMIT_AS, &lim);
+        }
         // no core files from deliberate crashes
         let zero = libc::rlimit { rlim_cur: 0, rlim_max: 0 };
         libc::setrlimit(libc::RLIMIT_CORE, &zero);
@@ -152,4 +155,42 @@ pub fn main(args: &Args) -> i32 {
             3
         }
     }
+}
+
+
+/// In-process runner for the interpreter lane (`cargo miri run … --inproc 1`):
+/// no rlimits, no shared mapping, no threads — only file reads (needs
+/// `-Zmiri-disable-isolation`) and the real decoder on every input of the batch.
+pub fn inproc(args: &Args) -> i32 {
+    let decoder = args.extra.get("decoder").cloned().unwrap_or_default();
+    let Some(batch) = args.extra.get("batch") else {
+        eprintln!("inproc: --batch required");
+        return 3;
+    };
+    let Some(codec) = crate::all_codecs().into_iter().find(|c| c.name == decoder) else {
+        eprintln!("inproc: unknown decoder {decoder}");
+        return 3;
+    };
+    let Some(inputs) = read_batch(std::path::Path::new(batch)) else {
+        eprintln!("inproc: cannot read batch");
+        return 3;
+    };
+    let (mut ok, mut err) = (0u64, 0u64);
+    for input in &inputs {
+        // both the buffer as allocated and a copy shifted by one byte: a zero-copy reader
+        // must answer with a value or a typed error whatever the alignment of its input
+        match (codec.touch)(input) {
+            Ok(()) => ok += 1,
+            Err(_) => err += 1,
+        }
+        let mut shifted: Vec<u8> = Vec::with_capacity(input.len() + 1);
+        shifted.push(0);
+        shifted.extend_from_slice(input);
+        match (codec.touch)(&shifted[1..]) {
+            Ok(()) => ok += 1,
+            Err(_) => err += 1,
+        }
+    }
+    println!("INPROC decoder={decoder} inputs={} ok={ok} err={err}", inputs.len());
+    0
 }
